@@ -35,6 +35,11 @@ where
         return Err(IoError::UnexpectedEof.into());
     }
 
+    // Snapshot memory layout must match the emulated machine
+    if is_128k != (emulator.settings.machine == ZXMachine::Sinclair128K) {
+        return Err(crate::error::SnapshotLoadError::MachineNotSupported.into());
+    }
+
     let mut header = [0u8; SNA_HEADER_SIZE];
     asset.read_exact(&mut header)?;
 
